@@ -11,6 +11,9 @@ CONSTANTS
   EraseKeepsBug = FALSE
   PushFrontRetBug = FALSE
   ReleaseNoClear = FALSE
+  LogDupBug = FALSE
+  LogSetShallowBug = FALSE
+  LeakTempBug = FALSE
   MoveAssignInPlaceBug = FALSE
 VIEW IView
 INVARIANTS ParentConsistent
